@@ -274,9 +274,9 @@ SEEDS = [
 def mutate_seed(rng: random.Random, nmax=7):
     """a graph obtained from a textbook seed by relabelling, adding up to three nodes and toggling a few
     edges; stays acyclic because directed edges only go forward in a fixed order"""
-    seed = rng.choice(SEEDS)
+    seed = rng.choice([s for s in SEEDS if len(s["nodes"]) <= nmax])
     n0 = len(seed["nodes"])
-    n = min(nmax, n0 + rng.choice([0, 0, 1, 1, 2, 3]))
+    n = max(n0, min(nmax, n0 + rng.choice([0, 0, 1, 1, 2, 3])))
     # positions: seed node i keeps relative order; new nodes inserted at random ranks
     ranks = sorted(rng.sample(range(n), n0))
     pos = {i: ranks[i] for i in range(n0)}          # seed nodes are topologically numbered already
